@@ -50,7 +50,7 @@ package ast
 //@   ensures[null-rule] dNull(node.left, st(s)) || dNull(node.right, st(s)) ==> result == (node.op == BinaryOpNEQ && dNull(node.left, st(s)) != dNull(node.right, st(s)))
 //@   ensures[comparison] !dNull(node.left, st(s)) && !dNull(node.right, st(s)) ==> result == cmpOp(node.op, dInst(node.left, st(s)) < dInst(node.right, st(s)), dInst(node.left, st(s)) == dInst(node.right, st(s)))
 //@ func (*BinaryStringExprNode).EvalBool
-//@   props C01
+//@   props C01 C11
 //@   pure
 //@   ensures[null-rule] sNull(node.left, st(s)) || sNull(node.right, st(s)) ==> result == ((node.op == BinaryOpNEQ && sNull(node.left, st(s)) != sNull(node.right, st(s))) || node.op == BinaryOpNotContains || node.op == BinaryOpNotIContains)
 //@   ensures[comparison] !sNull(node.left, st(s)) && !sNull(node.right, st(s)) && node.op <= BinaryOpGTE ==> result == cmpOp(node.op, sVal(node.left, st(s)) < sVal(node.right, st(s)), sVal(node.left, st(s)) == sVal(node.right, st(s)))
@@ -73,7 +73,7 @@ package ast
 
 // ---- in [array]: true iff the left value is not null and equals some non-null element ----
 //@ func (*InStringArrayExprNode).EvalBool
-//@   props C01
+//@   props C01 C11
 //@   pure
 //@   ensures[member] result == (!sNull(node.left, st(s)) && exists(i, 0 <= i && i < len(node.right.values) && !sNull(node.right.values[i], st(s)) && sVal(node.left, st(s)) == sVal(node.right.values[i], st(s))))
 //@   invariant 1: forall(i, 0 <= i && i <= rangeindex ==> !(!sNull(node.left, st(s)) && !sNull(node.right.values[i], st(s)) && sVal(node.left, st(s)) == sVal(node.right.values[i], st(s))))
